@@ -216,7 +216,8 @@ func runServer(c reqCase) ([]string, error) {
 	l := xport.NewPipeListener()
 	h := handlerFor(c)
 	// the bystander and follow-up connections need a sane handler: route by unit id 200
-	router := &routing{main: h, sane: &srv.Handler{Dev: device.New(c.DevSeed)}}
+	byUnit := c.Frame[6] + 1 // the bystander's unit id differs from the request's, the router tells them apart by it
+	router := &routing{main: h, sane: &srv.Handler{Dev: device.New(c.DevSeed)}, saneUnit: byUnit}
 	s := &server.Server{ReadTimeout: 20 * time.Millisecond, WriteTimeout: 2 * time.Second, OnErrorFunc: func(error) {}}
 	ctx, cancel := context.WithCancel(context.Background())
 	var wg sync.WaitGroup
@@ -236,7 +237,7 @@ func runServer(c reqCase) ([]string, error) {
 	}
 	defer by.Close()
 	byCol := srv.Collect(by)
-	byReq := spec.EncodeRequest(spec.TCP, spec.Req{FC: 3, Unit: 200, Tx: 0x0B0B, Addr: 1, Qty: 2})
+	byReq := spec.EncodeRequest(spec.TCP, spec.Req{FC: 3, Unit: byUnit, Tx: 0x0B0B, Addr: 1, Qty: 2})
 	byWant := device.New(c.DevSeed).Answer(spec.TCP, byReq)
 	if err := exchange(by, byCol, 0, byReq, byWant); err != nil {
 		return nil, fmt.Errorf("bystander connection before the request: %v", err)
@@ -279,12 +280,13 @@ func runServer(c reqCase) ([]string, error) {
 
 type routing struct {
 	main, sane *srv.Handler
+	saneUnit   uint8
 }
 
-// Handle routes unit 200 (bystander / follow-up connections) to a well-behaved handler.
+// Handle routes the bystander's unit id (bystander / follow-up connections) to a well-behaved handler.
 func (r *routing) Handle(ctx context.Context, req packet.Request) (packet.Response, error) {
 	b := req.Bytes()
-	if len(b) > 6 && b[6] == 200 {
+	if len(b) > 6 && b[6] == r.saneUnit {
 		return r.sane.Handle(ctx, req)
 	}
 	return r.main.Handle(ctx, req)
